@@ -9,7 +9,7 @@ element named by `tail_` (so a wrong `tail_` loses elements), `insertAfter`/`del
 in the chain, `empty()` compares `tail_` with the sentinel, `size()` returns the counter.
 Operations on dangling/null pointers are undefined behaviour in C++; the model is totalised by leaving the
 chain unchanged in that case (the theorems are stated under the invariant, where this does not happen).
-After fixes/C11_sllist_selfassign.patch.
+After fixes/C11_sllist_selfassign.patch and fixes/C11_sllist_converting_ctor.patch.
 -/
 namespace DV.C11.SL
 
@@ -113,6 +113,10 @@ def copyElements (s : State α) (other : State α) : State α := (items other).f
 
 /-- copy constructor -/
 def copy (other : State α) : State α := copyElements empty other
+
+/-- converting copy constructor `SLList(const SLList<T1,A1>&)` (fixes/C11_sllist_converting_ctor.patch):
+    `copyElements` over the source's elements, each converted by `push_back(*element)` (`f` = the conversion `T1 → T`) -/
+def copyConv {β : Type} (f : β → α) (other : State β) : State α := ((items other).map f).foldl pushBack empty
 
 /-- `operator=(other)`; `other = none` stands for `&other == this` -/
 def assign (s : State α) (other : Option (State α)) : State α :=
